@@ -130,7 +130,9 @@ def run(ctx):
     # trees only SOME spellings produce: fields named exactly like an operator keyword (they
     # lex as identifiers wherever the keyword's own whitespace is missing) and path segments
     # written with a namespace (which the parser drops).  Source text -> tree -> trip.
-    kws = ["not", "eq", "ne", "lt", "le", "gt", "ge", "and", "or", "add", "sub", "mul", "div", "mod", "in"]
+    kws = ["not", "eq", "ne", "lt", "le", "gt", "ge", "and", "or", "add", "sub", "mul", "div", "mod", "in",
+           # spellings a case-insensitive regular expression relates to a keyword (long s, dotless / dotted i)
+           "\u017fub", "\u0131n", "d\u0131v", "\u0130N", "\u017fUB", "D\u0130V"]
     raw = []
     for kw in kws:
         raw += ["(%s) eq x" % kw, "x eq (%s)" % kw, "x eq (%s) and y" % kw, "-%s add 1" % kw, "not (%s)" % kw,
